@@ -84,6 +84,9 @@ fn add_wheres<T: ConditionalStatement>(q: &mut T, ws: &[X]) {
 }
 
 fn conj_cond(xs: &[X]) -> Condition {
+    if xs.is_empty() && route(2) == 0 {
+        return Condition::all().add_option(None::<SimpleExpr>);
+    }
     let mut c = Condition::all();
     for e in xs {
         c = c.add(e.build());
@@ -403,12 +406,26 @@ pub fn sel(s: &Sel) -> SelectStatement {
         q.window(a(name), window(w));
     }
     if !s.unions.is_empty() {
-        if route(2) == 0 {
-            for (op, u) in &s.unions {
-                q.union(union_type(*op), sel(u));
+        // operands accumulate over union() / unions() calls in any split
+        match route(4) {
+            0 => {
+                for (op, u) in &s.unions {
+                    q.union(union_type(*op), sel(u));
+                }
             }
-        } else {
-            q.unions(s.unions.iter().map(|(op, u)| (union_type(*op), sel(u))));
+            1 => {
+                q.unions(s.unions.iter().map(|(op, u)| (union_type(*op), sel(u))));
+            }
+            2 => {
+                let (op, u) = &s.unions[0];
+                q.union(union_type(*op), sel(u));
+                q.unions(s.unions[1..].iter().map(|(op, u)| (union_type(*op), sel(u))));
+            }
+            _ => {
+                let k = s.unions.len() / 2;
+                q.unions(s.unions[..k].iter().map(|(op, u)| (union_type(*op), sel(u))));
+                q.unions(s.unions[k..].iter().map(|(op, u)| (union_type(*op), sel(u))));
+            }
         }
     }
     for o in &s.orders {
